@@ -21,7 +21,8 @@ Definition kept (g : graph) (e : edge) : list edge :=
   filter (fun e' => negb (id_eqb (e_id e') (e_id e))) (g_edges g).
 Definition r_graph (g : graph) (nx : nat) (e : edge) (r : graph) : graph :=
   mkGraph (g_nodes g ++ copies nx (nonext r)) (kept g e ++ r_es nx e r) (g_ext g)
-          (tbl_adds (g_elabs g) (map e_label (g_edges r))).
+          (tbl_adds (g_elabs g) (map e_label (g_edges r)))
+          (add_nlabs (g_nlabs g) (map n_label (copies nx (nonext r)))).
 Definition r_next (nx : nat) (r : graph) : nat := nx + length (nonext r) + length (g_edges r).
 
 Lemma is_ext_In : forall r v, is_ext r v = true <-> In v (g_ext r).
@@ -248,7 +249,10 @@ Record replace_spec (host : graph) (e : edge) (repl : graph) (res : graph) (nm :
   rs_ids_e : NoDup (map e_id (g_edges res));
   (* label table only grows and covers the new edges *)
   rs_tbl_prefix : exists t, g_elabs res = g_elabs host ++ t;
-  rs_tbl_new : forall re ge, In (re, ge) em -> In (e_label ge) (g_elabs res) }.
+  rs_tbl_new : forall re ge, In (re, ge) em -> In (e_label ge) (g_elabs res);
+  (* node-label table: exactly the labels of the added nodes are registered, in order *)
+  rs_nlabs : g_nlabs res = add_nlabs (g_nlabs host)
+               (map (fun rg => n_label (snd rg)) (filter (fun rg => negb (is_ext repl (fst rg))) nm)) }.
 
 Lemma firstn_prefix : forall {A} (l t : list A), firstn (length l) (l ++ t) = l.
 Proof. induction l; simpl; intros; auto. rewrite IHl; auto. Qed.
@@ -265,8 +269,12 @@ Theorem replace_ok_sound : forall host e repl res nm em,
 Proof.
   intros host e repl res nm em H. unfold replace_ok in H.
   repeat (apply andb_true_iff in H; destruct H as [H ?]).
-  rename H into A1.
+  rename H into A1. rename H0 into NL.
+  rename H1 into H0. rename H2 into H1. rename H3 into H2. rename H4 into H3. rename H5 into H4.
+  rename H6 into H5. rename H7 into H6. rename H8 into H7. rename H9 into H8. rename H10 into H9.
+  rename H11 into H10. rename H12 into H11. rename H13 into H12. rename H14 into H13.
   apply (memb_In edge_eqb edge_eqb_eq) in A1.
+  apply (list_eqb_eq Nat.eqb Nat.eqb_eq) in NL.
   apply (list_eqb_eq edge_eqb edge_eqb_eq) in H13.
   apply (list_eqb_eq node_eqb node_eqb_eq) in H12.
   apply (list_eqb_eq node_eqb node_eqb_eq) in H11.
